@@ -62,6 +62,12 @@ struct MatOp
     void perform_op(const Real* x, Real* y) const
     {
         applied++;
+        // C13: the user's operator must be handed valid, distinct (non-overlapping) length-n input and output buffers
+        const Eigen::Index n = A.rows();
+        bool ok = x != nullptr && y != nullptr && (x + n <= y || y + n <= x);
+        sym::expect("operator is handed valid, distinct input and output buffers", ok, x == y ? "x_in == y_out" : "null or overlapping buffers");
+        if (!ok)
+            sym::cut("aliased operator buffers");
         Eigen::Map<const RVec> xin(x, A.cols());
         Eigen::Map<RVec> yout(y, A.rows());
         yout.noalias() = A * xin;
@@ -75,6 +81,11 @@ struct BMatOp  // B operator of the generalized modes (y = B x)
     void perform_op(const Real* x, Real* y) const
     {
         applied++;
+        const Eigen::Index n = B.rows();
+        bool ok = x != nullptr && y != nullptr && (x + n <= y || y + n <= x);
+        sym::expect("B operator is handed valid, distinct input and output buffers", ok, x == y ? "x_in == y_out" : "null or overlapping buffers");
+        if (!ok)
+            sym::cut("aliased operator buffers");
         Eigen::Map<const RVec> xin(x, B.cols());
         Eigen::Map<RVec> yout(y, B.rows());
         yout.noalias() = B * xin;
@@ -320,6 +331,65 @@ static void two_step_rational_case()
     sym::witness("end");
 }
 
+// breakdown followed by a regular step inside ONE factorize_from call, with every radical numeric: V_k = e_0, e_1 spans an
+// invariant subspace of A = [[A11, C], [0, B]] (Arnoldi; A11, C fully symbolic) resp. blockdiag(A11, B) (Lanczos, A11 symbolic
+// symmetric). B = B0 + t * v2 * w' where B0 = diag(3/r2, 4/r3) maps the generator's draw r to (3,4), v2 = (3,4)/5 is the
+// restart direction and w = (r3,-r2) is orthogonal to the draw: the symbol t then enters H(2,2), H(2,3) only and every norm
+// the code takes of a residual is a rational number.  All obligations are linear in the 9 (Lanczos: 3) symbols.
+template <bool IsLanczos>
+static void two_step_linear_case()
+{
+    using AOp = ArnoldiOp<Real, MatOp, IdentityBOp>;
+    using Fac = typename std::conditional<IsLanczos, Lanczos<Real, AOp>, Arnoldi<Real, AOp>>::type;
+    const int n = 4, k = 2;
+    sym::set_normalize(true);
+    SimpleRandom<Real> rng(2 * k);
+    RVec r = rng.random_vec(n);
+    if ((r[2] == Real(0)) || (r[3] == Real(0)))
+        sym::cut("a draw is zero: choose another configuration");
+    MatOp op;
+    op.A = RMat::Zero(n, n);
+    for (int i = 0; i < k; i++)
+        for (int j = (IsLanczos ? i : 0); j < k; j++)
+        {
+            op.A(i, j) = sym::fresh("a" + std::to_string(i) + std::to_string(j));
+            if (IsLanczos)
+                op.A(j, i) = op.A(i, j);
+        }
+    if (!IsLanczos)
+        for (int i = 0; i < k; i++)
+            for (int j = k; j < n; j++)
+                op.A(i, j) = sym::fresh("c" + std::to_string(i) + std::to_string(j));
+    op.A(2, 2) = sym::rational(3, 1) / r[2];
+    op.A(3, 3) = sym::rational(4, 1) / r[3];
+    if (!IsLanczos)
+    {
+        Real t = sym::fresh("t");
+        Real v2[2] = {sym::rational(3, 5), sym::rational(4, 5)};
+        Real w[2] = {r[3], Real(0) - r[2]};
+        for (int i = 0; i < 2; i++)
+            for (int j = 0; j < 2; j++)
+                op.A(2 + i, 2 + j) = op.A(2 + i, 2 + j) + t * v2[i] * w[j];
+    }
+    IdentityBOp bop;
+    Fac fac(AOp(op, bop), n);
+    fac.m_fac_V = RMat::Zero(n, n);
+    fac.m_fac_H = RMat::Zero(n, n);
+    fac.m_fac_V(0, 0) = Real(1);
+    fac.m_fac_V(1, 1) = Real(1);
+    fac.m_fac_H.topLeftCorner(k, k) = op.A.topLeftCorner(k, k);
+    fac.m_fac_f = RVec::Zero(n);
+    fac.m_beta = Real(0);
+    fac.m_k = k;
+    Eigen::Index counter = 0;
+    check_invariant<Fac, AOp>("pre-state", fac, op.A, RMat::Identity(n, n), n, k, IsLanczos, op.applied, counter);
+    fac.factorize_from(k, k + 2, counter);
+    check_invariant<Fac, AOp>("after factorize_from", fac, op.A, RMat::Identity(n, n), n, k + 2, IsLanczos, op.applied, counter);
+    sym::check_eq("breakdown step: H(k,k-1)=0", fac.m_fac_H(k, k - 1), Real(0));
+    sym::expect("restart + two steps apply the operator three times", op.applied == 3, "applied=" + std::to_string(op.applied));
+    sym::witness("end");
+}
+
 // init(v0) with a numeric start vector
 template <bool IsLanczos>
 static void init_case(int n, int vkind)
@@ -483,9 +553,69 @@ static void bstep_case(int n, int k)
     sym::witness("end");
 }
 
+// generalized problem, breakdown: the restart direction of expand_basis must be orthogonalised and NORMALISED in the B-inner
+// product.  Ahat = blockdiag(symbolic k x k tridiagonal, numeric rest), V_k = W[:, :k] spans an invariant subspace, f = 0.
+// (The re-orthogonalisation loop inside expand_basis is entered only when the first projection is inexact, i.e. through rounding:
+// exact arithmetic never takes that path from an exact pre-state.  Variants with a rounding-like perturbation of V were tried -
+// numeric and symbolic, 2^-20 / 2^-30 - and left the solver with algebraic numbers it does not decide within minutes.)
+static void bstep_breakdown_case(int n, int k)
+{
+    using AOp = ArnoldiOp<Real, MatOp, BMatOp>;
+    using Fac = Lanczos<Real, AOp>;
+    sym::set_normalize(true);
+    auto R = [](long p, long q) { return sym::rational(p, q); };
+    RMat L = RMat::Zero(n, n), Linv = RMat::Zero(n, n);
+    for (int i = 0; i < n; i++)
+    {
+        L(i, i) = R(1, 1);
+        if (i > 0)
+            L(i, i - 1) = R(1, 2);
+    }
+    for (int j = 0; j < n; j++)
+    {
+        Linv(j, j) = R(1, 1);
+        for (int i = j + 1; i < n; i++)
+            Linv(i, j) = -R(1, 2) * Linv(i - 1, j);
+    }
+    BMatOp bop;
+    bop.B = L * L.transpose();
+    RMat Qc = frame(n);
+    RMat W = Linv.transpose() * Qc;  // W' B W = I
+    RMat Ah = RMat::Zero(n, n);
+    for (int i = 0; i < n; i++)
+        for (int j = i; j < n; j++)
+        {
+            if ((i < k) != (j < k) || (j > i + 1 && i < k))
+                continue;
+            Real v = (j < k) ? sym::fresh("a_" + std::to_string(i) + "_" + std::to_string(j)) : filler(i, j);
+            Ah(i, j) = v;
+            Ah(j, i) = v;
+        }
+    MatOp op;
+    op.A = W * Ah * W.transpose() * bop.B;
+    Fac fac(AOp(op, bop), n);
+    fac.m_fac_V = RMat::Zero(n, n);
+    fac.m_fac_H = RMat::Zero(n, n);
+    fac.m_fac_V.leftCols(k) = W.leftCols(k);
+    fac.m_fac_H.topLeftCorner(k, k) = Ah.topLeftCorner(k, k);
+    fac.m_fac_f = RVec::Zero(n);
+    fac.m_beta = Real(0);
+    fac.m_k = k;
+    Eigen::Index counter = 0;
+    check_invariant<Fac, AOp>("pre-state", fac, op.A, bop.B, n, k, true, op.applied, counter);
+    fac.factorize_from(k, k + 1, counter);
+    sym::note("applications", std::to_string(op.applied));
+    check_invariant<Fac, AOp>("after factorize_from", fac, op.A, bop.B, n, k + 1, true, op.applied, counter);
+    sym::expect("breakdown restart applied the operator once more", op.applied == 2, "applied=" + std::to_string(op.applied));
+    sym::check_eq("breakdown: H(k,k-1)=0", fac.m_fac_H(k, k - 1), Real(0));
+    sym::witness("end");
+}
+
 int main(int argc, char** argv)
 {
     std::vector<sym::Case> cases;
+    cases.push_back({"lanczos-bstep-breakdown/n3/k2", []() { bstep_breakdown_case(3, 2); }});
+    cases.push_back({"lanczos-bstep-breakdown/n4/k3", []() { bstep_breakdown_case(4, 3); }});
     for (int n = 3; n <= 4; n++)
         for (int k = 1; k < n; k++)
             for (const char* bk : {"regular", "zero", "small"})
@@ -496,7 +626,9 @@ int main(int argc, char** argv)
                 cases.push_back({"lanczos-step" + tail, [n, k, b]() { step_case<true>(n, k, b); }});
             }
     cases.push_back({"arnoldi-2step-rational/n4/k2", two_step_rational_case});
-    cases.push_back({"arnoldi-2step-breakdown/n4/k1", []() { two_step_breakdown_case<false>(4, 1); }});
+    cases.push_back({"arnoldi-2step-linear/n4/k2", two_step_linear_case<false>});
+    cases.push_back({"lanczos-2step-linear/n4/k2", two_step_linear_case<true>});
+    cases.push_back({"arnoldi-2step-breakdown/n4/k1",[]() { two_step_breakdown_case<false>(4, 1); }});
     cases.push_back({"lanczos-2step-breakdown/n4/k1", []() { two_step_breakdown_case<true>(4, 1); }});
     cases.push_back({"arnoldi-2step-breakdown/n4/k2", []() { two_step_breakdown_case<false>(4, 2); }});
     cases.push_back({"lanczos-2step-breakdown/n4/k2", []() { two_step_breakdown_case<true>(4, 2); }});
